@@ -489,8 +489,10 @@ def explore_schedules(prop, tier, seed, wd, n, max_sched):
     import concurrent.futures as cf
     exe = vlib.build_harness("release")
     allc = os.path.join(wd, "explore.all")
-    vlib.gen_cases(exe, allc, "solve:small,hints,fan", n, seed + 77, "", whitebox=False, render=False, first_id=5001)
-    shards = vlib.split_file(allc, 12, wd, "explore")
+    cnt = vlib.gen_cases(exe, allc, "solve:small,hints,fan", n, seed + 77, "", whitebox=False, render=False, first_id=5001)
+    # one universe per shard when there are many schedules: the trace of a universe holds every
+    # completion order of it (each run repeats the universe record), and TLC loads a trace whole
+    shards = vlib.split_file(allc, 12 if max_sched <= 400 else min(cnt, 64), wd, "explore")
     traces, summ = [], []
     def one(sh):
         t = sh[:-6] + ".trace"
@@ -523,7 +525,7 @@ def explore_schedules(prop, tier, seed, wd, n, max_sched):
 def _c10(prop, tier, seed, t0):
     check.enable_rules(prop)
     wd = vlib.fresh_dir(os.path.join(vlib.WORK, prop + "x"))
-    xres, info = explore_schedules(prop, tier, seed, wd, 10 if tier == "quick" else 120, 300 if tier == "quick" else 4000)
+    xres, info = explore_schedules(prop, tier, seed, wd, 10 if tier == "quick" else 64, 300 if tier == "quick" else 1500)
     # the sampled schedules on larger universes
     rc = check.trace_check(prop, tier, seed, check.TRACE_PLANS[prop], t0, extra_cov=info)
     # fold the explorer's result into the evidence and verdict
@@ -666,7 +668,7 @@ def async_monitor(prop, traces):
 def _c10(prop, tier, seed, t0):
     check.enable_rules(prop)
     wd = vlib.fresh_dir(os.path.join(vlib.WORK, prop + "x"))
-    xres, info = explore_schedules(prop, tier, seed, wd, 10 if tier == "quick" else 120, 300 if tier == "quick" else 4000)
+    xres, info = explore_schedules(prop, tier, seed, wd, 10 if tier == "quick" else 64, 300 if tier == "quick" else 1500)
     mc_info, mc_viol = mc_asyncfetch(prop, tier, seed)
     info.update(mc_info)
     rc = check.trace_check(prop, tier, seed, check.TRACE_PLANS[prop], t0, extra_cov=info)
